@@ -139,6 +139,25 @@ def tdesc(t):
             f"|sp={t['spacing'] / 1000:g}GHz|pre={int(t['pre'])}")
 
 
+def detached(p, rp):
+    """copies of the route elements as a deepcopy of the propagated paths gives them - same uid and oms_id, but their `.oms` is
+    another object (with its own copy of the map) than the entry of oms_list; a full deepcopy drags the whole network along
+    through the OMS element lists and cost minutes per run"""
+    seen = {}
+
+    def one(e):
+        c = copy.copy(e)
+        o = getattr(e, 'oms', None)
+        if o is not None:
+            if id(o) not in seen:
+                oc = copy.copy(o)
+                oc.spectrum_bitmap = copy.deepcopy(o.spectrum_bitmap)
+                seen[id(o)] = oc
+            c.oms = seen[id(o)]
+        return c
+    return [one(e) for e in p], [one(e) for e in rp]
+
+
 def replay_history(bench, js, chk, policy='first_fit'):
     """returns True when the real code followed the model on the whole history"""
     from gnpy.topology.spectrum_assignment import pth_assign_spectrum
@@ -154,7 +173,7 @@ def replay_history(bench, js, chk, policy='first_fit'):
         if (i + len(js['hist'])) % 3 == 1:
             # every third request comes with COPIES of the route elements (what compute_path_with_disjunction returns for the
             # propagated paths): same oms_id, other objects - the spectrum state lives in oms_list, not in the route handed in
-            p, rp = copy.deepcopy((p, rp))
+            p, rp = detached(p, rp)
         try:
             pth_assign_spectrum([p], [rq], oms_list, [rp], policy=policy)
             st = getattr(rq, 'blocking_reason', None)
